@@ -294,6 +294,8 @@ def gen_script(rng, family=None):
     conns = {}                                  # id -> kind (generator bookkeeping only)
     nid = 0
 
+    wsmode = {}
+
     def add(kind, arg=None):
         nonlocal nid
         if nid >= 8:
@@ -301,6 +303,10 @@ def gen_script(rng, family=None):
         i = nid
         nid += 1
         conns[i] = kind
+        if kind == "raw" and rng.random() < 0.2:          # same peer, WebSocket transport
+            wsmode[i] = rng.randint(0, 1)
+            sb.op("rawws %d %d" % (i, wsmode[i]))
+            return i
         sb.op("%s %d%s" % (kind, i, "" if arg is None else " %d" % arg))
         return i
 
@@ -378,7 +384,14 @@ def gen_script(rng, family=None):
             if len(data) > 2 and rng.random() < 0.35:
                 cuts = sorted(set(rng.randrange(1, len(data)) for _ in range(rng.choice([1, 1, 2]))))
                 sb.op("cuts %d s %s" % (i, ",".join(map(str, cuts))))
+            if i in wsmode and len(data) > 6 and rng.random() < 0.6:
+                fr = sorted(set(rng.randrange(1, len(data)) for _ in range(rng.choice([1, 2, 3]))))
+                if wsmode[i]:
+                    fr = sorted(set(max(3, f - f % 3) for f in fr))
+                sb.op("wsfr %d %s" % (i, ",".join(map(str, fr))))
             sb.op("%s %d %s" % ("senddie" if rng.random() < 0.08 else "send", i, sb.cat(msgs) if len(msgs) > 1 else sb.blob(data)))
+        elif k == "lib" and rng.random() < 0.15:
+            sb.op("fbu %d" % i)
         elif k == "lib":
             t = gen_text(rng, pick_size(rng))
             if rng.random() < 0.3:
@@ -744,7 +757,55 @@ def directed(tier):
         sb.op("send 3 %s" % sb.blob(cext(REQUEST | TEXT)))
         return sb
 
-    out += [("stalled-client", s_stalled())]
+    def s_ws_limits():
+        """classic and extended cut text at the exact limit through the WebSocket transport: the whole
+        RFB message (8 + text) in ONE frame, split over frames, binary and base64 sub-protocol"""
+        sb = SB()
+        sb.op("rawws 0 0"); sb.op("rawws 1 0"); sb.op("rawws 2 1"); sb.op("rawws 3 1"); sb.op("rawws 4 0"); sb.op("raw 5")
+        base = A(LIMIT - 8)
+
+        def classic(n):
+            return sb.cat([bytes([6, 0, 0, 0]) + be32(n), base, A(n - (LIMIT - 8))])
+        for n in (LIMIT - 8, LIMIT - 7, LIMIT):                    # one frame each: payload LIMIT, LIMIT+1, LIMIT+8
+            sb.op("send 0 %s" % classic(n))
+        sb.op("wsfr 1 5,700000")
+        sb.op("send 1 %s" % classic(LIMIT))
+        sb.op("wsfr 1 8")
+        sb.op("send 1 %s" % classic(LIMIT - 3))
+        n64 = (LIMIT * 3) // 4 - 8                                 # base64 payload reaches 1 MiB here
+        for n in (n64 - 3, n64 + 1, LIMIT):
+            sb.op("send 2 %s" % sb.cat([bytes([6, 0, 0, 0]) + be32(n), A(n)]))
+        sb.op("wsfr 3 3,300000,900000")
+        sb.op("send 3 %s" % classic(LIMIT))
+        sb.op("send 4 %s" % sb.blob(setenc([ENC_EXT])))
+        z0 = zlib.compress(rec(b"edge\0"))
+        z = z0 + bytes(LIMIT - 4 - len(z0))
+        sb.z(z)
+        sb.op("send 4 %s" % sb.blob(cext(PROVIDE | TEXT, z)))      # extended message of exactly LIMIT bytes, one frame
+        sb.op("send 0 %s" % sb.cat([bytes([6, 0, 0, 0]) + be32(LIMIT + 1), base, A(9)]))   # over the limit: closed
+        sb.op("pub %s" % sb.blob(b"to everybody"))
+        sb.op("pub8 %s %s" % (sb.blob(bytes(range(256)) * 300), sb.blob(b"fb")))
+        sb.op("send 4 %s" % sb.blob(cext(REQUEST | TEXT)))
+        return sb
+
+    def s_viewer_granted():
+        """a LibVNCClient viewer that is view-only when its first framebuffer update (with the
+        SupportedMessages pseudo-rectangle) goes out and is granted input later must still deliver
+        its clipboard; the advertised list does not depend on the momentary permission"""
+        sb = SB()
+        sb.op("lib 0 1"); sb.op("fbu 0")
+        sb.op("csend 0 %s" % sb.blob(b"from the start"))
+        sb.op("lib 1 1"); sb.op("viewonly 1 1"); sb.op("fbu 1")
+        sb.op("csend 1 %s" % sb.blob(b"not yet allowed"))
+        sb.op("viewonly 1 0")
+        sb.op("csend 1 %s" % sb.blob(b"granted now \xe9\x00!"))
+        sb.op("csend8 1 %s" % sb.blob(b"granted utf8 \xc3\xa9"))
+        sb.op("lib 2 0"); sb.op("viewonly 2 1"); sb.op("fbu 2"); sb.op("fbu 2"); sb.op("viewonly 2 0")
+        sb.op("csend 2 %s" % sb.blob(bytes(range(256))))
+        sb.op("pub %s" % sb.blob(b"and back"))
+        return sb
+
+    out += [("stalled-client", s_stalled()), ("ws-limits", s_ws_limits()), ("viewer-granted-later", s_viewer_granted())]
     out += [("request-reply", s_request_reply([b"", b"x", b"hello", b"12345", b"123456", bytes(range(256)), rnd64k], 1)),
             ("request-reply-limits", s_request_reply([A(LIMIT - 2), A(LIMIT - 1), A(LIMIT)], 2)),
             ("broadcast-dead-client", s_broadcast_dead()), ("sender-vanishes", s_senddie()),
@@ -976,7 +1037,7 @@ class Spec:
             else:
                 self.blobs[t[1]] = b"".join(self.blobs[x] for x in t[3:])
             return None if obs == "ok" else "def answered %r" % obs
-        if t[0] in ("zdef", "cuts"):
+        if t[0] in ("zdef", "cuts", "wsfr"):
             return None if obs == "ok" else "%s answered %r" % (t[0], obs)
         if obs == "HANG":
             return "HANG: the call did not return (op %r)" % line
@@ -1027,8 +1088,11 @@ class Spec:
                     return "callback attributed to another client: %s" % e
             return None
 
-        if op in ("raw", "rawpre", "lib", "fsrv"):
+        if op in ("raw", "rawpre", "lib", "fsrv", "rawws"):
             i = int(t[1])
+            if op == "rawws":          # the transport is transparent: same expectations as a plain reference peer
+                op = "raw"
+                t = [op, t[1]]
             self.kind[i] = op
             self.utf8[i] = (int(t[2]) & 1) if len(t) > 2 else 0
             self.nol1[i] = (int(t[2]) & 2) if len(t) > 2 else 0
@@ -1050,6 +1114,19 @@ class Spec:
         if op == "viewonly":
             self.view[int(t[1])] = int(t[2])
             return None if not evs and not newly_closed else "viewonly had effects"
+        if op == "fbu":
+            i = int(t[1])
+            sup = [e for e in plain if e.startswith("sup%d:" % i)]
+            if newly_closed or ("cdrop%d" % i) in plain:
+                return "framebuffer update closed connection %d" % i
+            if len(sup) != 1:
+                return "no SupportedMessages state reported for %d" % i
+            f = sup[0].split(":")
+            if f[1] != "11":
+                return "after the SupportedMessages pseudo-rectangle LibVNCClient believes ClientCutText/ServerCutText supported = %s (must be 11 whatever the client's momentary permissions, view-only=%s)" % (f[1], self.view.get(i, 0))
+            if f[2] != "same":
+                return "the SupportedMessages list sent to client %d differs from the one another client of the same server got (it depends on transient per-client state, view-only=%s)" % (i, self.view.get(i, 0))
+            return others_untouched(i)
         if op == "stall":
             i = int(t[1])
             if [e for e in plain] or newly_closed:
